@@ -756,6 +756,7 @@ def h_depth(container: str, n: int, tagged_kind: str):
         from unit_scaling.parameter import has_parameter_data
         sel = z3.Int("tag_sel")
         c.assumes += [sel >= 0, sel <= 3]
+        c.extra_vars["tag_sel"] = sel
         _REG["tag"] = sel
         info = {"container": container, "n": n, "tagged": tagged_kind}
         mods = []
